@@ -25,9 +25,11 @@ TECHNIQUE = "runtime law monitor on instantiate_partial/instantiate + differenti
 RULE = ("A: 2-5 parameters of kinds type / nat const / int or bool const (comptime-marked or not) / const "
         "typed by an earlier type parameter; inputs and output over bound variables, arrays sized by "
         "const parameters, options, tuples; every subset as stage 1. B: templates with (T, n, comptime "
-        "k) in all orders, 2-4 instantiations each, generic->generic calls, generic struct. distinct = "
+        "k) in all orders, 2-4 instantiations each, generic->generic calls, generic struct; B2: call "
+        "chains f0->f1->f2 with comptime int/bool/nat, comptime-of-generic-type, runtime generic and "
+        "runtime int parameters in random order, comptime parameters forwarded down the chain. distinct = "
         "(parameter kind sequence, stage split) for A, (template, instantiation types) for B")
-FLOORS = {"law_checks": 300, "program_pairs": 2}
+FLOORS = {"law_checks": 300, "program_pairs": 2, "chains_compiled": 10, "chains_executed": 5}
 ENV = None
 OBS = {}
 
@@ -281,6 +283,167 @@ def gen_program(rng):
     return gen, spec, label
 
 
+# ------------------------------------------------------------------------------------ part B2
+# Chains of generic functions f0 -> f1 -> f2 whose parameters mix comptime values of concrete type
+# (int / bool / nat), comptime values of *generic* type, runtime generic values and runtime ints, in
+# random order, with comptime parameters forwarded down the chain (composed partial
+# monomorphisation).  The reference result is what the textually specialised copy computes, which
+# the generator evaluates itself: acc_i = expr_i + 100 * acc_(i+1), and the carried value passes
+# through unchanged.
+
+CARRY_VALS = {"int": ["42", "-7", "9"], "bool": ["True", "False"], "float": ["2.5", "-0.75"], "nat": ["3", "11"]}
+
+
+def gen_chain(rng):
+    """-> (module text, expected result stream, label)"""
+    depth = rng.choice([1, 2, 2, 3, 3, 3])
+    hdr = ("from guppylang import guppy\nfrom guppylang.std.builtins import result, comptime, nat, array\n\n"
+           'T = guppy.type_var("T")\nV = guppy.type_var("V")\nW = guppy.type_var("W")\n\n')
+    # nat is the one type whose comptime values become HUGR bounded-nat parameters: weight it up
+    carry_ty = rng.choice(["int", "bool", "float", "nat", "nat", "nat"])
+    carry_val = rng.choice(CARRY_VALS[carry_ty])
+    carry_comptime = rng.random() < 0.7
+    fns = []
+    for i in range(depth):
+        extras = []
+        for j in range(rng.randint(1, 3)):
+            kind = rng.choice(["cint", "cbool", "cnat", "rint", "rgen", "rgen2"])
+            if kind == "rgen" and any(e[0] == "rgen" for e in extras):
+                kind = "rint"
+            if kind == "rgen2" and any(e[0] == "rgen2" for e in extras):
+                kind = "cint"
+            extras.append((kind, f"e{i}_{j}"))
+        # the top function may take the carry at its concrete type (then T := that type further down)
+        concrete_carry = (i == 0 and depth > 1 and rng.random() < 0.5)
+        fns.append({"extras": extras, "concrete_carry": concrete_carry})
+    label = []
+    # values chosen in main for f0's extras; forwarded or replaced by literals further down
+    def lit(kind):
+        return {"cint": str(rng.randint(-5, 9)), "cbool": rng.choice(["True", "False"]),
+                "cnat": str(rng.randint(0, 7)), "rint": str(rng.randint(-9, 9)),
+                "rgen": rng.choice(["4", "True", "1.5", "9", "42"]),
+                "rgen2": rng.choice(["6", "False", "2.5", "42", "-7"])}[kind]
+
+    def ival(kind, v):
+        if kind in ("cint", "cnat", "rint"):
+            return int(v)
+        if kind == "cbool":
+            return 1 if v == "True" else 0
+        return 0
+
+    text = [hdr]
+    # build bottom-up so callers know callee signatures
+    values = [dict() for _ in range(depth)]   # name -> literal text (the value flowing at run time)
+    for e_kind, e_name in fns[0]["extras"]:
+        values[0][e_name] = lit(e_kind)
+    call_args = [None] * depth
+    for i in range(depth - 1):
+        args = []
+        for e_kind, e_name in fns[i + 1]["extras"]:
+            same = [n_ for k_, n_ in fns[i]["extras"] if k_ == e_kind]
+            if same and rng.random() < 0.6:
+                src = rng.choice(same)
+                args.append(src)
+                values[i + 1][e_name] = values[i][src]
+            else:
+                v = lit(e_kind)
+                args.append(v)
+                values[i + 1][e_name] = v
+        call_args[i] = args
+    accs = [0] * (depth + 1)
+    for i in reversed(range(depth)):
+        coef = {}
+        own = 0
+        for j, (k_, n_) in enumerate(fns[i]["extras"]):
+            coef[n_] = j + 1
+            own += (j + 1) * ival(k_, values[i][n_])
+        fns[i]["coef"] = coef
+        accs[i] = own + 100 * accs[i + 1]
+    for i in reversed(range(depth)):
+        f = fns[i]
+        ps = []
+        cty = carry_ty if f["concrete_carry"] else "T"
+        carry_p = f"c: {cty}" + (" @comptime" if carry_comptime else "")
+        extra_ps = []
+        for k_, n_ in f["extras"]:
+            extra_ps.append({"cint": f"{n_}: int @comptime", "cbool": f"{n_}: bool @comptime",
+                             "cnat": f"{n_}: nat @comptime", "rint": f"{n_}: int", "rgen": f"{n_}: V",
+                             "rgen2": f"{n_}: W"}[k_])
+        pos = rng.randint(0, len(extra_ps))
+        ps = extra_ps[:pos] + [carry_p] + extra_ps[pos:]
+        f["order"] = [n_ for _, n_ in f["extras"]][:pos] + ["c"] + [n_ for _, n_ in f["extras"]][pos:]
+        terms = []
+        for k_, n_ in f["extras"]:
+            c_ = f["coef"][n_]
+            if k_ in ("cint", "rint"):
+                terms.append(f"{c_} * {n_}")
+            elif k_ in ("cbool", "cnat"):
+                terms.append(f"{c_} * int({n_})")
+        expr = " + ".join(terms) if terms else "0"
+        body = []
+        if i + 1 < depth:
+            nxt = fns[i + 1]
+            amap = dict(zip([n_ for _, n_ in nxt["extras"]], call_args[i]))
+            amap["c"] = "c"
+            body.append(f"    sub, cc = f{i + 1}({', '.join(amap[o] for o in nxt['order'])})")
+            body.append(f"    return {expr} + 100 * sub, cc")
+        else:
+            body.append(f"    return {expr}, c")
+        text.append(f"@guppy\ndef f{i}({', '.join(ps)}) -> tuple[int, {cty}]:\n" + "\n".join(body) + "\n\n")
+        label.append(tuple(k_ for k_, _ in f["extras"]) + (("C" if f["concrete_carry"] else "G") + ("c" if carry_comptime else "r"),))
+    amap = {n_: values[0][n_] for _, n_ in fns[0]["extras"]}
+    amap["c"] = carry_val
+    main = ["@guppy", "def main() -> None:"]
+    if carry_ty == "nat" and not carry_comptime:
+        main.append(f"    cv: nat = {carry_val}")
+        amap["c"] = "cv"
+    elif carry_ty == "nat" and not fns[0]["concrete_carry"]:
+        # a bare literal would instantiate T := int; make the nat-ness explicit
+        amap["c"] = f"comptime(nat_{carry_val})"
+        text.insert(1, f"import guppylang.std.builtins as _b\nnat_{carry_val} = _b.nat({carry_val}) if False else {carry_val}\n\n")
+    main.append(f"    a, c = f0({', '.join(amap[o] for o in fns[0]['order'])})")
+    main.append('    result("a", a)')
+    main.append('    result("c", c)')
+    text.append("\n".join(main) + "\n")
+    cexp = {"int": int, "bool": lambda v: v == "True", "float": float, "nat": int}[carry_ty](carry_val)
+    return "".join(text), [("a", accs[0]), ("c", cexp)], (depth, carry_ty, carry_comptime, tuple(label))
+
+
+def run_chain(ctx, rng):
+    from vf import ctx as C
+
+    text, exp, label = gen_chain(rng)
+    try:
+        ld = ctx.load(text, "chain")
+        pkg = ld.main.compile()
+    except BaseException as e:
+        if C.raised_in_harness(e):
+            raise
+        if C.is_guppy_error(e):
+            try:
+                msg = ctx.render(e)[:700]
+            except Exception:
+                msg = repr(e)
+            return [{"mech": "C13:chain-template-rejected", "witness": {"text": text, "error": msg}}], label, False
+        return [{"mech": "C13:chain-compile-crash:" + C.innermost_repo_frame(e),
+                 "witness": {"text": text, "error": C.short_tb(e, 4)}}], label, False
+    e1, e2 = ctx.validate_both(pkg)
+    if e1 or e2:
+        return [{"mech": "C13:chain-invalid-hugr", "witness": {"text": text, "V1": (e1 or "")[:400],
+                                                                 "V2": (e2 or "")[:400]}}], label, False
+    try:
+        out = ctx.emulate(pkg)
+    except C.HarnessError as he:
+        if "PanicException" in str(he):
+            return [], label, False  # still-generic function the installed QIS compiler cannot lower
+        raise
+    got = [(t, (bool(v) if isinstance(e_, bool) else v)) for (t, v), (_, e_) in zip(out.stream(), exp)]
+    if out.panic or got != exp:
+        return [{"mech": "C13:chain-result-differs-from-specialised-evaluation",
+                 "witness": {"text": text, "expected": exp, "observed": out.stream(), "panic": out.panic}}], label, True
+    return [], label, True
+
+
 def run_pair(ctx, gen, spec):
     from vf import ctx as C
 
@@ -346,6 +509,15 @@ def run_case(ctx, rng, idx, params, tier):
             counters["program_pairs"] = 1
             viols += v
             fp_b = repr(label)
+    if idx % 2 == 1:
+        for _ in range(3):
+            v, label, executed = run_chain(ctx, rng)
+            ENV.refresh()
+            counters["chains_compiled"] = counters.get("chains_compiled", 0) + 1
+            if executed:
+                counters["chains_executed"] = counters.get("chains_executed", 0) + 1
+            viols += v
+            shapes.add("chain:" + repr(label))
     counters.update({"obs_" + k: v for k, v in OBS.items()})
     seen = set()
     uniq = [v for v in viols if not (v["mech"] in seen or seen.add(v["mech"]))]
